@@ -210,6 +210,11 @@ def cases_for(tier):
             for ugp, cfg in ((False, False), (True, False)):
                 if (h + 1) * w + h * (w + 1) > 12 and kind == "cycle" and ugp is True:
                     continue
+                # the two 17-segment frames cost ~2 CPU hours per (frame, kind): cycle on 2x3, path on 3x2
+                if (h, w) == (2, 3) and kind == "path":
+                    continue
+                if (h, w) == (3, 2) and kind == "cycle":
+                    continue
                 out.append({"kind": kind, "shape": [h, w], "ugp": ugp, "cfg": cfg})
     return out
 
